@@ -14,8 +14,12 @@ package receiver
 //@ func receiver.sortFileList
 //@   modifies E:*receiver.File
 
+// FileMode maps the protocol's S_IF* type bits to Go's fs.Mode* bits and
+// keeps the nine permission bits (C11, C12).
+//@ spec func goTypeBits(t: int): int = ite(t == 2, 2097152, ite(t == 6, 67108864, ite(t == 1, 33554432, ite(t == 12, 16777216, ite(t == 10, 134217728, ite(t == 4, 2147483648, 0))))))
 //@ func (*receiver.File).FileMode
 //@   pure
+//@   ensures [mode-mapping] 0 <= f.Mode ==> result == mod(f.Mode, 512) + goTypeBits(mod(div(f.Mode, 4096), 16))
 
 //@ func (*receiver.Transfer).recvToken
 //@   modifies rsyncwire.CountingReader.BytesRead
